@@ -352,7 +352,10 @@ static void do_nmt_reset(int com)
     w_rx(&Node, 0x000, 2, d);
     step_end();
     mc_log("    %s: node error %d\n", ctx, (int)X.err);
-    after_load(ctx, "para-ram-after-reset", !com, com);
+    /* reset node is "reset application (and communication)" (co_nmt.h; CiA 301: the reset application sub-state is followed by reset
+     * communication), and C20 demands that it equals a fresh start, which loads every group: both kinds of group must be reloaded.
+     * reset communication must reload the communication groups; application groups may be reloaded or left alone. */
+    after_load(ctx, "para-ram-after-reset", !com, 1);
 }
 
 /* power cycle: node and RAM parameters back to their compile-time state, NVM kept */
